@@ -168,6 +168,9 @@ def make_stale(rng, tier):
                     ops.append(_parse_op(rng, cfg, modes))                 # some other file in between
                 if rng.random() < 0.2:
                     ops.append({'k': 'clock', 'dt': rng.choice([1.0, 5.0, 700.0])})
+                if rng.random() < 0.2:
+                    ops.append({'k': 'restart', 'proc': base['p']})        # the language server is restarted
+                    ops.append(dict(base, t=[]))
                 ops.extend(_edit_ops(rng, cfg, state, f=base['f']))
             ops.append(dict(base, t=[]))
         elif r < 0.5:
@@ -256,7 +259,8 @@ def make_torn(rng, tier):
         elif r < 0.94 and 'diskfull' in enabled:
             ops.append({'k': 'diskfull', 'free': rng.choice([0, 0, 10, 300, None])})
         elif r < 0.96 and 'tmpfile' in enabled:
-            ops.append({'k': 'tmpfile', 'c': c, 'r': rng.randrange(1 << 30)})
+            ops.append({'k': rng.choice(['tmpfile', 'tmpfile', 'sibling']), 'c': c, 'r': rng.randrange(1 << 30),
+                        'dv': rng.choice([-1, -1, 1, -5])})
         elif r < 0.98 and 'powerloss' in enabled:
             ops.append({'k': rng.choice(['powerloss', 'powerloss', 'sync']), 't': []})
     # epilogue: faults stop; bounded recovery and repair
